@@ -36,7 +36,7 @@ QueryCalls == {
     "create_annotation_intervals", "apply_variable_mods_zero", "fragment_objects", "fragmenter_object",
     "mass_isotope_mods_arg", "comp_isotope_mods_arg", "mz_isotope_mods_arg", "digest_enzyme_names", "digest_config_names",
     "sequential_digest_configs", "fragment_b_avg_mass", "fragment_y_mono_mass",
-    "write_chem_formula_precision", "write_chem_formula_unsorted", "chem_mass_fractional", "condense_to_mass_mods_precise", "create_multi_annotation", "add_mods_text_dict"
+    "write_chem_formula_precision", "write_chem_formula_unsorted", "chem_mass_fractional", "condense_to_mass_mods_precise", "create_multi_annotation", "add_mods_text_dict", "fragment_iterated", "reload_monosaccharides", "t_glycan_synonym"
 }
 EditorCalls == {
     "pop_labile_mods", "pop_nterm_mods", "pop_charge", "add_nterm_mods_append",
